@@ -52,6 +52,9 @@ def net(ctx, nif, namelen, raw=None):
             content += b"  " + rn + b": " + b" ".join(k.num(x) for x in v) + b"\n"
         k.files["/proc/net/dev"] = content
         nif = len(raw)
+        # the last interface is a port of a bond/bridge: it is still an interface the kernel lists, and counts in the total
+        k.links["/sys/class/net/" + names[-1] + "/master"] = "../bond0"
+        k.dirs["/sys/class/net/" + names[-1]] = ["master", "statistics"]
     content = "Inter-|   Receive                                                |  Transmit\n face |bytes    packets errs drop fifo frame compressed multicast|bytes    packets errs drop fifo colls carrier compressed\n"
     for i in range(nif if raw is None else 0):
         nm = seq.fresh(ctx, f"nm{i}", namelen, "str", lo=33, hi=126)     # printable, no whitespace
@@ -154,6 +157,31 @@ def disks(ctx, layouts, names=None):
                   "total-with-2.4-line-correct-or-known-shift")
     else:
         ctx.prove(ctx.all([ctx.eq(getattr(tot, f), ctx.sum([want[n][f] for n in wh])) for f in tot._fields]), "total-over-whole-disks")
+
+
+@harness("C09.disks_sysfs", quick=[dict(nstat=n) for n in (11, 17)], thorough=[dict(nstat=n) for n in (11, 15, 17)])
+def disks_sysfs(ctx, nstat):
+    """the fallback used when /proc/diskstats is absent: the counters come from /sys/block/<disk>/stat and /sys/block/<disk>/<part>/stat
+    (iostats.rst: the same columns as diskstats after the name): same field mapping, sectors times 512, totals over whole disks only"""
+    k = simk.Kernel(ctx)
+    devs = {"sda": "/sys/block/sda", "sda1": "/sys/block/sda/sda1", "nvme0n1": "/sys/block/nvme0n1"}
+    want = {}
+    for j, (name, root) in enumerate(devs.items()):
+        st = [ctx.int(f"{name}_{i}", 0, 2**64 - 1) if name != "nvme0n1" else 100 * j + i for i in range(nstat)]
+        k.files[root + "/stat"] = " ".join(k.num(x, True) for x in st) + "\n"
+        k.files[root + "/dev"] = "8:0\n"
+        want[name] = _from_stats(st)
+    k.dirs["/sys/block"] = ["sda", "nvme0n1"]
+    k.dirs["/sys/block/sda"] = ["stat", "dev", "sda1", "queue"]
+    k.dirs["/sys/block/nvme0n1"] = ["stat", "dev"]
+    with k.installed():
+        per = ctx.guard("sysfs-fallback", psutil.disk_io_counters, perdisk=True, nowrap=False)
+        tot = ctx.guard("sysfs-fallback", psutil.disk_io_counters, perdisk=False, nowrap=False)
+    ctx.prove(set(per) == set(want), "all-devices-listed", detail=f"{sorted(per)}")
+    for name, w in want.items():
+        if name in per:
+            ctx.prove(ctx.all([ctx.eq(getattr(per[name], f), w[f]) for f in w]), "fields-sysfs", detail=name)
+    ctx.prove(tot is not None and ctx.all([ctx.eq(getattr(tot, f), want["sda"][f] + want["nvme0n1"][f]) for f in tot._fields]), "total-over-whole-disks", detail=f"{tot}")
 
 
 class _Statvfs:
